@@ -331,7 +331,7 @@ def run(ctx):
                    "strip-set reference: mc/checks/c06.py:ref_strip_set (request-level Retry, else manager-level Retry, else documented default)",
                    "headers are compared relative to the first request of the chain (how a container is serialised is C10/C16's business)",
                ],
-               vacuity=[
+               vacuity=[(ok or bool(acc.viol), msg) for ok, msg in [   # a run that already reports violations is not "vacuous"
                    (c["nontrivial"] > 1000, "too few non-trivial cases"),
                    (c["stripped_after_origin_change"] > 1000, "stripping never observed"),
                    (c["other_header_preserved"] > 1000, "preservation never observed"),
@@ -342,7 +342,7 @@ def run(ctx):
                    (all(c["spelling_" + s] > 0 for s in SPELLINGS) and all(c["container_" + s] > 0 for s in CONTAINERS), "a spelling/container was not run"),
                    (c["policy_request"] > 0 and c["policy_manager"] > 0 and c["policy_none"] > 0, "a policy placement was not run"),
                    (c["misaligned_with_intended_trace"] == 0 or bool(acc.viol), "requests did not follow the intended chain (see C05)"),
-               ])
+               ]])
 
 
 def replay(case):
